@@ -369,6 +369,18 @@ func contractTouches(con *FuncContract, prop string) bool {
 			return true
 		}
 	}
+	for _, ls := range con.Loops {
+		for _, cl := range ls.Inv {
+			if cl.Prop == prop {
+				return true
+			}
+		}
+	}
+	for _, sa := range con.Sites {
+		if sa.Cl.Prop == prop {
+			return true
+		}
+	}
 	return false
 }
 
